@@ -228,8 +228,8 @@ def run_config(ctx, rep, cfg):
             if not same and Aw is not None and Af is not None and Af.root == Aw.root and len(Af.segs) == len(Aw.segs) + 1:
                 pre = Af.segs[:-1]
                 if akey(type(Aw)(Aw.root, pre[:-1] + (Aw.segs[-1],))) == akey(Aw) and pre[-1].off is not None and \
-                        Aw.segs[-1].off is not None and (wl is None or Aw.segs[-1].off <= pre[-1].off < Aw.segs[-1].off + wl):
-                    inside = True
+                        Aw.segs[-1].off is not None and Aw.segs[-1].off <= pre[-1].off:
+                    inside = True      # a pointer stored in the object the wipe starts at (length is R2's business)
             if not same and not inside:
                 rep.violation("C17.R1", cons, site, "the block handed to free() (%s) is not the object that was wiped (%s)" %
                               (addr_str(Af, prog), addr_str(Aw, prog)), cfg=cn)
@@ -319,9 +319,12 @@ def run_r5(ctx, rep, cfg, expected):
         if f is None or f.decl:
             # inlined away: look for the free in callers is out of scope; vtable targets are address-taken
             rep.inconclusive("C17.R5", "src/%s.c:%s" % (unit, name), "", "function not present in the optimised IR", cfg=cn)
-            continue
+    for f in sorted(prog.defined(), key=lambda x: x.key):
         for fr in direct_calls(f, {"free"}):
             n += 1
+            wl = expected.get((f.unit, f.name))
+            if wl is None:
+                continue    # no agreed length (R1/R2 already reported this function)
             tot, det = o3_wipe_extent(f, fr)
             cons = construct(f)
             if tot is None:
